@@ -73,6 +73,7 @@ func main() {
 		concLimit  = flag.Int("conc-limit", 0, "explore only the K smallest feasible values of each symbolic size/offset (0 = all)")
 		loopCut    = flag.String("loop-cut", "", "Func=N: prune paths that visit a block of a function whose name contains Func more than N times in one activation")
 		tags       = flag.String("tags", "", "comma separated tags enabling //verif:stub-if <tag> directives")
+		switches   = flag.Int("switches", 2, "maximum voluntary context switches per run in verif_par harnesses")
 		tier       = flag.String("tier", "quick", "quick or thorough (selects verif_bound values)")
 		list       = flag.Bool("list", false, "list harness entry functions (H_*) and exit")
 	)
@@ -243,6 +244,7 @@ func main() {
 			}
 			return strings.HasPrefix(path, "Havoc/")
 		}
+		i.sched = &scheduler{i: i, maxSwitches: *switches}
 		i.registerIntrinsics()
 		solver, err := newSolver(*z3bin, *qtimeout, solverArgs(*z3bin)...)
 		if err != nil {
